@@ -10,29 +10,7 @@ open Biff
 
 /-- `rk_num`'s bit manipulation (`rk[2] & 1`, `rk[2] & 2`, `v[4] &= 0xFC`, `read_i32 >> 2`, truncating `%` and `/`,
     the zero-extended double) computes the RkNumber of [MS-XLS] 2.5.217 — for every word, with no bound needed. -/
-theorem rk_spec (ops : FOps) (w : Nat) : rkNum ops w = rkSpec ops w := by
-  obtain ⟨h1, h2, h3⟩ := byte_masks (w % 256) (Nat.mod_lt _ (by decide))
-  have hd : ((w % 256 &&& 1) != 0) = decide (w % 2 = 1) := by
-    rw [h1]; by_cases h : w % 2 = 1
-    · have : w % 256 % 2 = 1 := by omega
-      simp [h, this]
-    · have : w % 256 % 2 = 0 := by omega
-      simp [h, this]
-  have hI : ((w % 256 &&& 2) != 0) = decide (w / 2 % 2 = 1) := by
-    rw [h2]; by_cases h : w / 2 % 2 = 1
-    · have : w % 256 / 2 % 2 = 1 := by omega
-      simp [h, this]
-    · have : w % 256 / 2 % 2 = 0 := by omega
-      simp [h, this]
-  have hm : (w % 256 &&& 0xFC) + 256 * (w / 256) = 4 * (w / 4) := by rw [h3]; omega
-  have hv : (if 4 * (w / 4) < 2147483648 then ((4 * (w / 4) : Nat) : Int) else ((4 * (w / 4) : Nat) : Int) - 4294967296) >>> 2
-      = (if w / 4 < 536870912 then ((w / 4 : Nat) : Int) else ((w / 4 : Nat) : Int) - 1073741824) := by
-    rw [Int.shiftRight_eq_div_pow]
-    split <;> split <;> omega
-  have hb : 4 * (w / 4) * 4294967296 = w / 4 * 17179869184 := by omega
-  simp only [rkNum, rkSpec]
-  rw [hd, hI, hm, hv, hb, int_arm]
-  by_cases hi : w / 2 % 2 = 1 <;> by_cases hx : w % 2 = 1 <;> simp [hi, hx]
+theorem rk_spec (ops : FOps) (w : Nat) : rkNum ops w = rkSpec ops w := rkNum_eq_rkSpec ops w
 
 theorem encodeRkInt_lt (v : Int) (x : Bool) : encodeRkInt v x < 4294967296 := by
   unfold encodeRkInt; split <;> omega
